@@ -222,3 +222,90 @@ def no_undefined_names(ctx, rule, select=lambda fi: True):
         ctx.ob(rule, fi, not bad, "%s binds every name before it reads it on every path%s" % (fi.qual, (" (unbound: %s)" % bad) if bad else ""), key="names bound",
                detail="; ".join(UNDEF_FROZEN[(fi.qual, x)] for x in names if (fi.qual, x) in UNDEF_FROZEN) or None)
     return n
+
+
+def free_names_defined(ctx, rule, select=lambda fi: True):
+    """Every name a function reads is bound somewhere it can see: a parameter or local of the function or of an enclosing function, a
+    module-level name of the package (the modules star-import each other), or a builtin.  A local whose only assignment was removed turns
+    into a global lookup and raises NameError at run time."""
+    import ast as _ast
+    import builtins as _bi
+    M = ctx.model
+    top = set(dir(_bi))
+    for rel, tree in M.modules.items():
+        for st in tree.body:
+            if isinstance(st, (_ast.FunctionDef, _ast.ClassDef)):
+                top.add(st.name)
+            elif isinstance(st, _ast.Assign):
+                for t in st.targets:
+                    for x in _ast.walk(t):
+                        if isinstance(x, _ast.Name):
+                            top.add(x.id)
+            elif isinstance(st, (_ast.Import, _ast.ImportFrom)):
+                for a in st.names:
+                    if a.name != "*":
+                        top.add((a.asname or a.name).split(".")[0])
+            elif isinstance(st, (_ast.If, _ast.Try)):
+                for x in _ast.walk(st):
+                    if isinstance(x, (_ast.Import, _ast.ImportFrom)):
+                        for a in x.names:
+                            if a.name != "*":
+                                top.add((a.asname or a.name).split(".")[0])
+                    elif isinstance(x, _ast.Name) and isinstance(x.ctx, _ast.Store):
+                        top.add(x.id)
+                    elif isinstance(x, (_ast.FunctionDef, _ast.ClassDef)):
+                        top.add(x.name)
+
+    def bound_in(fn):
+        out = set()
+        a = fn.args
+        out.update(x.arg for x in a.posonlyargs + a.args + a.kwonlyargs)
+        if a.vararg:
+            out.add(a.vararg.arg)
+        if a.kwarg:
+            out.add(a.kwarg.arg)
+        for x in _ast.walk(fn):
+            if isinstance(x, _ast.Name) and isinstance(x.ctx, (_ast.Store, _ast.Del)):
+                out.add(x.id)
+            elif isinstance(x, (_ast.FunctionDef, _ast.ClassDef)) and x is not fn:
+                out.add(x.name)
+            elif isinstance(x, _ast.ExceptHandler) and x.name:
+                out.add(x.name)
+            elif isinstance(x, (_ast.Import, _ast.ImportFrom)):
+                for al in x.names:
+                    out.add((al.asname or al.name).split(".")[0])
+            elif isinstance(x, (_ast.Global, _ast.Nonlocal)):
+                out.update(x.names)
+        return out
+    n = 0
+    for fi in M.all_functions():
+        if fi.relpath.endswith("debug.py") or not select(fi):
+            continue
+        visible = set(bound_in(fi.node))
+        par = getattr(fi.node, "_parent", None)
+        while par is not None:
+            if isinstance(par, _ast.FunctionDef):
+                visible |= bound_in(par)
+            par = getattr(par, "_parent", None)
+        loads = set()
+
+        def collect(node, extra):
+            for ch in _ast.iter_child_nodes(node):
+                if isinstance(ch, _ast.FunctionDef):
+                    # a nested def is a function of its own (analysed separately); only its decorators/defaults belong here
+                    for d in ch.decorator_list + ch.args.defaults + [x for x in ch.args.kw_defaults if x is not None]:
+                        collect(d, extra)
+                    continue
+                if isinstance(ch, _ast.Lambda):
+                    a = ch.args
+                    names = {x.arg for x in a.posonlyargs + a.args + a.kwonlyargs} | ({a.vararg.arg} if a.vararg else set()) | ({a.kwarg.arg} if a.kwarg else set())
+                    collect(ch, extra | names)
+                    continue
+                if isinstance(ch, _ast.Name) and isinstance(ch.ctx, _ast.Load) and ch.id not in extra:
+                    loads.add(ch.id)
+                collect(ch, extra)
+        collect(fi.node, set())
+        missing = sorted(x for x in loads if x not in visible and x not in top)
+        n += 1
+        ctx.ob(rule, fi, not missing, "%s reads only names that are bound in its scope, an enclosing scope, the package or builtins%s" % (fi.qual, (" (unbound: %s)" % missing) if missing else ""), key="free names")
+    return n
